@@ -1,7 +1,112 @@
+(* C72 QAOA cost Hamiltonians encode their objectives.
+   Statements only; every proof is `exact <lemma>` from Disc/QaoaProofs.v.
+   diag_value H b = sum over the terms (c, word) of H of c * prod_{w in word} (1 - 2 b_w):
+   the diagonal entry of the sentence H at the computational basis state b.
+   All statements hold for every graph (any node list, any edge list, parallel edges included) and
+   every bit assignment b : wire -> bool. *)
 From Coq Require Import List ZArith QArith Bool.
 From PLV Require Import Disc.QaoaModel Disc.QaoaProofs.
 Import ListNotations.
 Open Scope Q_scope.
-Theorem stub : forall b, diag_value [] b == 0.
-Proof. exact diag_nil. Qed.
-Print Assumptions stub.
+
+(* a word of Z's has eigenvalue (-1)^(number of its wires whose bit is 1) on |b> *)
+Theorem z_word_eigenvalue : forall b ws,
+  word_value b ws == if Nat.even (length (filter b ws)) then 1 else -(1).
+Proof. exact word_parity. Qed.
+Print Assumptions z_word_eigenvalue.
+
+(* sentence arithmetic used by the builders (`H1 + H2`, `3 * H`) is linear on diagonals *)
+Theorem sentence_arithmetic_linear : forall A B k b,
+  diag_value (A ++ B) b == diag_value A b + diag_value B b /\ diag_value (hscale k A) b == k * diag_value A b.
+Proof. intros A B k b; split; [exact (diag_app A B b) | exact (diag_hscale k A b)]. Qed.
+Print Assumptions sentence_arithmetic_linear.
+
+(* bit_driver: (-1)^(b+1) (n - 2 #ones); any other b is rejected *)
+Theorem bit_driver_diag : forall ws k H b, bit_driver ws k = Ok H ->
+  diag_value H b == (if (k =? 1)%Z then 1 else -(1)) * (lenQ ws - 2 * ones b ws).
+Proof. exact bit_driver_diag_l. Qed.
+Print Assumptions bit_driver_diag.
+
+Theorem bit_driver_rejects_other_b : forall ws k, k <> 0%Z -> k <> 1%Z -> bit_driver ws k = Raise.
+Proof. exact bit_driver_rejects. Qed.
+Print Assumptions bit_driver_rejects_other_b.
+
+(* edge_driver, every accepted duplicate-free reward list with 1..3 colourings: each edge whose
+   endpoint colouring is rewarded contributes -(4-r)/4, every other edge r/4 (r = |reward|):
+   difference exactly 1, average over the four colourings 0 *)
+Theorem edge_driver_diag : forall g R b H, NoDup R -> edge_driver g R = Ok H -> R <> [] -> length R <> 4%nat ->
+  diag_value H b == edge_driver_obj R g b.
+Proof. exact edge_driver_diag_l. Qed.
+Print Assumptions edge_driver_diag.
+
+(* empty reward list or all four colourings: the constant |V| *)
+Theorem edge_driver_trivial_diag : forall g R b H, NoDup R -> edge_driver g R = Ok H ->
+  (R = [] \/ length R = 4%nat) -> diag_value H b == lenQ (nodes g).
+Proof. exact edge_driver_trivial_l. Qed.
+Print Assumptions edge_driver_trivial_diag.
+
+(* maxcut: minus the number of cut edges *)
+Theorem maxcut_diag : forall g b H, maxcut g = Ok H -> diag_value H b == maxcut_obj g b.
+Proof. exact maxcut_diag_l. Qed.
+Print Assumptions maxcut_diag.
+
+(* max_independent_set: |V| - 2|S| (constrained); + 3 per edge inside S - 3/4 |E| (unconstrained) *)
+Theorem mis_diag : forall g c b H, max_independent_set g c = Ok H -> diag_value H b == mis_obj g c b.
+Proof. exact mis_diag_l. Qed.
+Print Assumptions mis_diag.
+
+(* min_vertex_cover: 2|S| - |V| (constrained); + 3 per uncovered edge - 3/4 |E| (unconstrained) *)
+Theorem mvc_diag : forall g c b H, min_vertex_cover g c = Ok H -> diag_value H b == mvc_obj g c b.
+Proof. exact mvc_diag_l. Qed.
+Print Assumptions mvc_diag.
+
+(* max_clique: |V| - 2|S| (constrained); + 3 per chosen non-adjacent pair - 3/4 |E(complement)| *)
+Theorem max_clique_diag : forall g c b H, max_clique g c = Ok H -> diag_value H b == clique_obj g c b.
+Proof. exact clique_diag_l. Qed.
+Print Assumptions max_clique_diag.
+
+(* max_weight_cycle ingredients on every directed graph (edge list in wire order, log-weights given):
+   out flow = sum_i 4 s_i (s_i - 1), net flow = sum_i 4 (s_i^out - s_i^in)^2 *)
+Theorem out_flow_diag : forall d b H, out_flow_constraint d = Ok H -> diag_value H b == out_flow_obj d b.
+Proof. exact out_flow_diag_l. Qed.
+Print Assumptions out_flow_diag.
+
+Theorem net_flow_diag : forall d b H, net_flow_constraint d = Ok H -> diag_value H b == net_flow_obj d b.
+Proof. exact net_flow_diag_l. Qed.
+Print Assumptions net_flow_diag.
+
+(* max_weight_cycle cost: loss (constrained), loss + 3 (net flow + out flow) (unconstrained) *)
+Theorem max_weight_cycle_diag : forall d c b H, mwc_cost d c = Ok H -> diag_value H b == mwc_obj d c b.
+Proof. exact mwc_diag_l. Qed.
+Print Assumptions max_weight_cycle_diag.
+
+(* the graph problems never raise: the hypotheses `= Ok H` above are always satisfiable *)
+Theorem builders_never_raise : forall g c,
+  (exists H, maxcut g = Ok H) /\ (exists H, max_independent_set g c = Ok H) /\
+  (exists H, min_vertex_cover g c = Ok H) /\ (exists H, max_clique g c = Ok H).
+Proof. exact builders_total. Qed.
+Print Assumptions builders_never_raise.
+
+(* REFUTED clause (documentation, not code): the operator formula printed in the docstring of the
+   unconstrained max_independent_set, 3 sum_E (Z_i Z_j - Z_i - Z_j) + sum_V Z_i, taken literally,
+   is not the returned Hamiltonian (the code's edge coefficient is 3/4: `3 * edge_driver`). *)
+Theorem unconstrained_doc_formula_literal_refuted :
+  exists g b H, max_independent_set g false = Ok H /\ ~ diag_value H b == diag_value (mis_doc_literal g) b.
+Proof. exact doc_literal_refuted. Qed.
+Print Assumptions unconstrained_doc_formula_literal_refuted.
+
+(* non-vacuity: the docstring example of edge_driver (path 0-1-2, reward 11,10,01):
+   <000|H|000> = 3/2, <100|H|100> = 1/2, <110|H|110> = -1/2 *)
+Example edge_driver_doc_example :
+  exists H, edge_driver (mkG [0; 1; 2]%Z [(0, 1); (1, 2)]%Z) [3; 2; 1]%Z = Ok H /\ NoDup [3; 2; 1]%Z /\
+    diag_value H (fun _ => false) == 3 # 2 /\
+    diag_value H (fun w => (w =? 0)%Z) == 1 # 2 /\
+    diag_value H (fun w => (w <? 2)%Z) == -(1 # 2).
+Proof.
+  eexists; split; [reflexivity|]. split; [repeat constructor; cbn; intuition discriminate|].
+  repeat split; vm_compute; reflexivity.
+Qed.
+
+Example maxcut_example :
+  exists H, maxcut (mkG [0; 1; 2]%Z [(0, 1); (1, 2)]%Z) = Ok H /\ diag_value H (fun w => (w =? 1)%Z) == -(2).
+Proof. eexists; split; [reflexivity | vm_compute; reflexivity]. Qed.
